@@ -169,6 +169,10 @@ func (c *Checker) CheckEACL(ctx context.Context, msg any, cnr cid.ID, obj oid.ID
 		hdrSrcOpts = append(hdrSrcOpts, eaclV2.WithServiceRequest(req))
 	} else if b, ok := msg.([]byte); ok {
 		hdrSrcOpts = append(hdrSrcOpts, eaclV2.WithObjectHeaderBinary(b))
+		// the header was read for the request being processed
+		if req, ok := reqInfo.SrcRequest.(eaclV2.Request); ok {
+			hdrSrcOpts = append(hdrSrcOpts, eaclV2.WithRequestXHeaders(req))
+		}
 	} else {
 		hdrSrcOpts = append(hdrSrcOpts,
 			eaclV2.WithServiceResponse(
